@@ -63,6 +63,7 @@ IDIOMS = {
     'I26': '[&A[..], &B[..]].concat()  =>  idiom_concat_hashes(A, B)   (the bytes of two hashes, concatenated)',
     'I27': 'X.iter().map(|tx| tx.hash).collect::<Vec<sha256d::Hash>>()  =>  idiom_tx_hashes(&X)   (the hash field of every element, in order)',
     'I28': '(0..N).map(|_| E).collect()  [tail expression of a fn returning Result<Vec<T>>]  =>  { let mut v__ = Vec::new(); for i__ in 0..N { let x__ = E?; v__.push(x__); } Ok(v__) }   and   (0..N).map(|_| E).collect::<Result<Vec<T>>>()?  =>  { let mut v__: Vec<T> = Vec::new(); for i__ in 0..N { let x__ = E?; v__.push(x__); } v__ }   (collect() into a Result stops at the first Err and returns it: the same early return)',
+    'I29': 'X.into_par_iter().map(|P| E).collect()  =>  { let mut v__ = Vec::new(); let xs__ = X; for P in xs__ { let y__ = E; v__.push(y__); } v__ }   (rayon: collect() of an indexed parallel map yields the results in input order, E applied once per element)',
     'I24': 'PATH(ARGS).expect(MSG)  =>  idiom_expect(PATH(ARGS), MSG)   (Result::expect: returns only when the result is Ok, panics otherwise)',
     'A1': 'abstract-expression: `expr` => havoc::<T>() (unconstrained value)',
 }
@@ -552,6 +553,52 @@ def apply_idiom(ed, text, base, body_rel, loops, rest, item_id, log, rel, src, r
                 raise GenError('I28: .map(..) is not followed by .collect()')
             b = c2 + 1 + m3.end()
             anchor = text[a:b]
+        if rule == 'I29':
+            if rsx.norm_ws(anchor) != '.into_par_iter()':
+                raise GenError('I29 anchor must be `.into_par_iter()`')
+            r1 = a
+            while r1 > 0 and text[r1 - 1].isspace():
+                r1 -= 1
+            r0 = r1
+            while r0 > 0 and (text[r0 - 1].isalnum() or text[r0 - 1] in '_.'):
+                r0 -= 1
+            if r0 == r1:
+                raise GenError('I29: no receiver before .into_par_iter()')
+            m2 = re.match(r'\s*\.map\(\|(\w+)\|\s*', text[b:])
+            if not m2:
+                raise GenError('I29: .into_par_iter() is not followed by .map(|p| ..)')
+            open2 = b + text[b:].index('(', 0)
+            close2 = _balanced_arg(text, open2)
+            pn0, pn1 = b + m2.start(1), b + m2.end(1)
+            e0, e1 = b + m2.end(), close2
+            m3 = re.match(r'\)\s*\.collect\(\)', text[close2:])
+            if not m3:
+                raise GenError('I29: .map(..) is not followed by .collect()')
+            bend = close2 + m3.end()
+            sect = {'pre': [], 'inv': [], 'top': [], 'body': []}
+            cur = 'inv'
+            for (ln, tl) in (raw or []):
+                mm3 = re.match(r'\s*//--(pre|inv|top|body)\s*$', ln)
+                if mm3:
+                    cur = mm3.group(1)
+                else:
+                    sect[cur].append((ln, tl))
+            d = {'kind': 'idiom-I29', 'arg': rest, 'tline': tline}
+            inst['line'] = src.line_of(base + r0)
+            inst['original'] = text[r0:bend]
+            ty = (': %s' % parts[1]) if len(parts) == 2 else ''     # result type made explicit (rustc infers it from the destination; ghost text needs it earlier)
+            ed.replace(r0, r0, '{ let mut v__%s = Vec::new(); let xs__ = ' % ty, 'I29')
+            mid = r1 + 1
+            ed.replace(r1, mid, ';', 'I29')
+            if sect['pre']:
+                ed.insert(mid, sect['pre'], d)
+            ed.replace(mid, pn0, ' for ', 'I29')
+            ed.replace(pn1, e0, ' in it__: xs__ ', 'I29')
+            ed.insert(e0, sect['inv'] + [('{', tline)] + sect['top'] + [('let y__ = ', tline)], d)
+            ed.replace(e1, bend, '; v__.push(y__);', 'I29')
+            ed.insert(bend, sect['body'] + [('} v__ }', tline)], d)
+            log['idioms'].append(dict(inst, new='{ let mut v__ = Vec::new(); let xs__ = X; for P in xs__ { let y__ = E; v__.push(y__); } v__ }'))
+            return
         if rule == 'I15' and anchor.endswith('.entry('):
             # the anchor names the map; the span is M.entry(<balanced>).or_insert(<balanced>) (K and V stay under proof)
             e = _balanced_arg(text, b - 1)
